@@ -186,6 +186,7 @@ func init() {
 			}
 			return []Instance{
 				{Scenario: "c14_loop", Params: mustJSON(LoopParams{Depth: d}), Bound: 0, Shards: 8},
+				{Scenario: "c02_twogroups", Params: mustJSON(struct{}{}), Bound: 0, Note: "distinct group names in ONE process address distinct documents (the saves of one group never touch the other's)"},
 				// the filter for reserved keys does not depend on where the library keeps its own documents
 				{Scenario: "pipe", Params: mustJSON(PipeParams{Mode: "gen", Alphabet: []string{"M", "Mres", "Mtxn", "Dres", "Minfix"}, Depth: 3, Ops: []string{"deliver0", "deliver1", "ackold"}, Backend: "file"}), Bound: 0, Shards: 4, Note: "reserved / transaction keys under file metadata"},
 				{Scenario: "pipe", Params: mustJSON(PipeParams{Mode: "gen", Alphabet: []string{"M", "Mres", "Mtxn", "Dres", "Minfix"}, Depth: 3, Ops: []string{"deliver0", "deliver1", "ackold"}, MetaBucket: true}), Bound: 0, Shards: 4, Note: "reserved / transaction keys with the checkpoints in a second bucket"},
